@@ -76,16 +76,18 @@ def create(i, nd, objs, rev, second):
     return later
 
 
-def finish(i, nd, later, objs, rev):
+def finish(i, nd, later, objs, rev, repre=False):
     o = objs[i]
     fields = dict((k, v) for k, v in nd["fields"])
     for name in later:
         setattr(o, name, value_of(fields[name], objs, rev))
-    if nd["pre"]:
-        o.add_pretasks(*[objs[j] for j in nd["pre"]])
+    # repre: the same pre-tasks added in another order (same configuration, same identifier)
+    pre = nd.get("pre2", nd["pre"]) if repre else nd["pre"]
+    if pre:
+        o.add_pretasks(*[objs[j] for j in pre])
 
 
-def build_and_submit(case, rev=False, second=False):
+def build_and_submit(case, rev=False, second=False, repre=False):
     nodes = case["nodes"]
     objs = {}
     # configurations sealed by earlier submissions (references go to higher indices: built first)
@@ -94,7 +96,7 @@ def build_and_submit(case, rev=False, second=False):
         if nodes[i]["sealed"] and nodes[i]["cls"] != "Out":
             todo[i] = create(i, nodes[i], objs, rev, second)
     for i, later in todo.items():
-        finish(i, nodes[i], later, objs, rev)
+        finish(i, nodes[i], later, objs, rev, repre)
     for pid, oid in case["producers"]:
         objs[oid] = objs[pid].submit(run_mode=RunMode.DRY_RUN)
     todo = {}
@@ -102,7 +104,7 @@ def build_and_submit(case, rev=False, second=False):
         if not nodes[i]["sealed"] and nodes[i]["cls"] != "Out":
             todo[i] = create(i, nodes[i], objs, rev, second)
     for i, later in todo.items():
-        finish(i, nodes[i], later, objs, rev)
+        finish(i, nodes[i], later, objs, rev, repre)
     sealed_before = [bool(objs[i].__xpm__._sealed) for i in range(len(nodes))]
     # the input as it really is: key order of the .values dict of every configuration
     vorder = [list(objs[i].__xpm__.values.keys()) for i in range(len(nodes))]
@@ -121,7 +123,13 @@ def build_and_submit(case, rev=False, second=False):
             if arg.generator is not None:
                 val = o.__xpm__.values.get(name)
                 out.append(dict(node=i, arg=name, path=None if val is None else canon_path(val)))
-    return dict(jobdir=jobdir, sealed=sealed_before, values=out, exc=exc, vorder=vorder)
+    # raw identifier of every configuration attached as a pre-task (what the full identifier sorts)
+    ids = {}
+    for nd in nodes:
+        for j in list(nd["pre"]) + list(nd.get("pre2") or []):
+            if str(j) not in ids:
+                ids[str(j)] = objs[j].__xpm__.raw_identifier.all.hex()
+    return dict(jobdir=jobdir, sealed=sealed_before, values=out, exc=exc, vorder=vorder, ids=ids)
 
 
 def class_table():
@@ -141,12 +149,37 @@ def decl_table():
     return {name: list(cls.__getxpmtype__().arguments.keys()) for name, cls in S.CLASSES.items()}
 
 
+def probes():
+    """directed runs: (1) does this tree place pre-tasks by the rank of their identifier (fixes/C17-3.diff) or by
+    their index in the list?  (2) a task parameter whose default value is a configuration with a generated path"""
+    from vpk_c17.probe import TDefault
+
+    def pre_run(swap):
+        a, b, t = S.Pre(v=1), S.Pre(v=2), S.T(v=3)
+        t.add_pretasks(*([b, a] if swap else [a, b]))
+        t.submit(run_mode=RunMode.DRY_RUN)
+        return [canon_path(t.__xpm__.job.path), canon_path(a.p), canon_path(b.p)]
+
+    r1, r2 = pre_run(False), pre_run(True)
+    out = dict(pretask_order=dict(first=r1, second=r2), sorts_pretasks=(r1 == r2))
+    try:
+        t = TDefault()
+        t.submit(run_mode=RunMode.DRY_RUN)
+        out["config_default"] = dict(jobdir=canon_path(t.__xpm__.job.path), a_p=canon_path(t.a.p),
+                                     out=canon_path(t.out))
+    except Exception as e:  # noqa
+        out["config_default"] = dict(error=f"{type(e).__name__}: {e}")
+    return out
+
+
 def run_case(case):
     try:
         a = build_and_submit(case)
         # the second submit is a fresh copy of the same configuration, possibly with its dicts filled in
         # the opposite order, or with its parameters assigned in another order (order2 / kw2)
-        b = build_and_submit(case, rev=bool(case.get("reorder")), second=bool(case.get("reassign")))
+        # (order2 / kw2), or with its pre-tasks added in another order (pre2)
+        b = build_and_submit(case, rev=bool(case.get("reorder")), second=bool(case.get("reassign")),
+                             repre=bool(case.get("repre")))
         return dict(first=a, second=b)
     except Exception as e:  # noqa
         import traceback
@@ -159,9 +192,10 @@ def main():
     os.makedirs(wd, exist_ok=True)
     res = []
     with experiment(wd, "c17", port=-1):
+        pr = probes()
         for c in payload["cases"]:
             res.append(run_case(c))
-    print(json.dumps(dict(classes=class_table(), decls=decl_table(), answers=res)))
+    print(json.dumps(dict(classes=class_table(), decls=decl_table(), probes=pr, answers=res)))
 
 
 if __name__ == "__main__":
